@@ -39,23 +39,28 @@ PROPS['C07']['ties'].append(dict(name='TIE-F cancel', vh='events', model='events
 PROPS['C32'] = dict(
     target='Props/C32',
     theorems=['C32_one_result_per_element', 'C32_atomic_all_or_none', 'C32_sequential_continue', 'C32_sequential_stops_at_first_failure', 'C32_all_succeed',
-              'C32_success_is_standalone', 'C32_response_attribution_sequential', 'C32_response_attribution_parallel', 'C32_parallel_one_result_per_element', 'C32_parallel_is_a_permutation', 'C32_core_atomic_all_or_none'],
+              'C32_success_is_standalone', 'C32_response_attribution_sequential', 'C32_response_attribution_parallel', 'C32_parallel_one_result_per_element', 'C32_parallel_is_a_permutation', 'C32_core_atomic_all_or_none',
+              'C32_schema_atomic_all_or_none', 'C32_schema_one_result_per_element', 'C32_schema_sequential_continue', 'C32_schema_sequential_stops_at_first_failure', 'C32_schema_success_is_standalone'],
     ties=[dict(name='TIE-D bulk', vh='bulk', model='bulk', n=dict(quick=400, thorough=8000), kinds=['C32'])],
-    rule='random bulks of 1..7 elements on a ledger prepared with 0..4 committed writes: CREATE_TRANSACTION (funded, insufficient funds, reference reuse r1/r2, back-dated), REVERT_TRANSACTION '
-         '(existing, unknown, already reverted), ADD_METADATA / DELETE_METADATA on transactions and accounts (unknown transaction), idempotency keys reused inside the bulk; failing elements at random '
-         'positions; options atomic / continueOnFailure / parallel (all legal combinations); parallel bulks run with every task started before the first completion and completions in a seeded '
-         'permutation; the body goes through JsonBulkHandler.GetChannels -> Bulker.Run -> Terminate; non-trivial = bulk with at least one failing and one successful element',
+    rule='random bulks of 1..7 elements (4%: 13..72) on a ledger prepared with 0..4 writes; 45% of the ledgers first insert a schema (v1, sometimes v2: random chart whose patterns give DEFAULT METADATA to '
+         'some accounts, e.g. users:$id -> role, bank -> kind) and run under strict or audit enforcement; the bulk request carries ?schemaVersion= present / absent / unknown, which processElement forwards '
+         'to every element; every field processElement maps is varied: CREATE_TRANSACTION as postings or as a Numscript (script.plain), timestamp (back-dated), reference (reuse r1/r2), metadata, '
+         'accountMetadata, force; REVERT_TRANSACTION id (existing, unknown, already reverted), force, atEffectiveDate; ADD_METADATA / DELETE_METADATA target type, id, metadata / key; idempotency keys '
+         'reused inside the bulk; failing elements at random positions; options atomic / continueOnFailure / parallel (all legal combinations); parallel bulks run with every task started before the '
+         'first completion and completions in a seeded permutation; the body goes through JsonBulkHandler.GetChannels -> Bulker.Run -> Terminate; the standalone replay hands the element (same input, '
+         'idempotency key, schemaVersion) to the controller directly; non-trivial = bulk with at least one failing and one successful element',
     explanation='PROVED for every per-element step function and every element list (Ledger/Bulk.v, model of Bulker.Run/run and writeJSONResponse): exactly one result per element; atomic => any failure '
                 'leaves the observable state untouched, no failure => all applied in order; sequential non-atomic => applied in order, nothing processed after the first failure (later results are '
                 'context.Canceled) unless continueOnFailure, in which case all are processed; every successful result equals the standalone result of the same request in the state the bulk had reached; '
                 'the JSON response attributes to element i the result computed for element i, for sequential bulks and for EVERY parallel schedule (C32_response_attribution_parallel: results carry '
-                'ElementID, the response is sorted by it -- the code after the repair of KF-C32-parallel-attribution). Instantiated with Core.step (C32_core_atomic_all_or_none, tables unchanged). Tie: per-entry response '
-                '(responseType, logID, transaction id, error class) and the full ledger snapshot of the real stack vs the extracted model; the C32 monitor replays the elements one by one on a second '
+                'ElementID, the response is sorted by it -- the code after the repair of KF-C32-parallel-attribution). Instantiated with Core.step (C32_core_atomic_all_or_none, tables unchanged) and with the schema-aware controller step SchemaCtrl.sstep (C32_schema_*: schema lookup for the bulk\'s schemaVersion in strict / audit mode, chart default metadata, payload validation; state incl. schemas and log versions) -- the executor the tie runs. Tie: per-entry response '
+                '(responseType, logID, transaction id, error class) and the full ledger snapshot (incl. account metadata with chart defaults, schemas, logs.schema_version) of the real stack vs the extracted model; the C32 monitor replays the elements one by one on a second '
                 'fresh stack for the standalone results and checks all-or-none / order / one result per element / attribution on the implementation alone.',
     trusted=EVB_TRUST + HIST_TRUST,
     technique='Coq proof (induction over element lists, abstract step function, instantiation with the ledger model) + differential run through the real Bulker and JSON handler on pgsem + independent standalone replay',
     level_text='Unbounded theorems about Ledger/Bulk.v for every step function: one result per element, atomic all-or-none, ordered sequential application with stop-at-first-failure / continueOnFailure, '
-               'successful results equal standalone results, response entry i describes element i for sequential and parallel bulks.',
+               'successful results equal standalone results, response entry i describes element i for sequential and parallel bulks. The theorems are generic in the step function and are instantiated with Core.step and with SchemaCtrl.sstep '
+               '(the element executor on ledgers with schemas: C32_schema_* over sstep); the tie runs the sstep instance.',
     level_note='Parallel execution is modelled as serialised executions in completion order (schedules with a late/early hasError test per task); the tie exercises the schedules in which all tasks start '
                'before the first completion. Statement-level interleavings of parallel elements are not modelled. Trusted: Coq kernel, extraction, pgsem, Go harness.',
 )
